@@ -29,6 +29,7 @@ import (
 	"net/http"
 	"net/http/httptest"
 	"net/url"
+	"os"
 	"slices"
 	"strconv"
 	"strings"
@@ -1177,7 +1178,24 @@ func TestCheck(t *testing.T) {
 		"parts keys-*: HMAC (RFC 2104) zero-pads a key shorter than 64 bytes and hashes a longer one: a cookie minted under a hash key that differs from the RP's only in that way (same block key) is minted under the same key as far as any HMAC user can tell: Either; every other related key pair must lead to the unauthorized handler and no provider request",
 	)
 	parts = append(parts, rel...)
+	only := os.Getenv("C17_ONLY_PARTS") // development aid (timing one family of parts); the run is then not exhaustive
+	if only != "" {
+		c.Cap("C17_ONLY_PARTS=" + only + ": only parts with that prefix were run")
+	}
+	// replay: run only the part the replay file names (the E2 and E3 engines each refuse the other's case format)
+	replayPart := ""
+	if c.ReplayFile != "" {
+		var f struct {
+			Part string `json:"part"`
+		}
+		if b, err := os.ReadFile(c.ReplayFile); err == nil && json.Unmarshal(b, &f) == nil {
+			replayPart = f.Part
+		}
+	}
 	for _, p := range parts {
+		if (only != "" && !strings.HasPrefix(p.name, only)) || (replayPart != "" && p.name != replayPart) {
+			continue
+		}
 		engine.RunE2(c, engine.E2[S]{
 			Part:      p.name,
 			Init:      S{},
@@ -1190,5 +1208,7 @@ func TestCheck(t *testing.T) {
 	}
 	// overlapping requests of several browsers on the one shared RP (E3 schedule exploration, conc_test.go)
 	c.Assume("part conc: requests are interleaved at the hooked operations (state function, URLParamOpt callbacks, ResponseWriter methods, the HTTP client's RoundTrip, the application callback); handler code between two hooks runs atomically; all orders of hooked operations up to the stated preemption bound are explored")
-	concPart(c)
+	if (only == "" || only == "conc") && (replayPart == "" || replayPart == "conc") {
+		concPart(c)
+	}
 }
